@@ -17,13 +17,25 @@ var cronParser = cron.NewParser(
 	cron.Minute | cron.Hour | cron.Dom | cron.Month | cron.Dow,
 )
 
+// parseCron parses a cron expression. The cron library panics on some
+// malformed specs (e.g. "TZ=UTC" without a following expression); such a spec
+// is reported as an error.
+func parseCron(spec string) (sched cron.Schedule, err error) {
+	defer func() {
+		if r := recover(); r != nil {
+			sched, err = nil, fmt.Errorf("malformed cron expression %q: %v", spec, r)
+		}
+	}()
+	return cronParser.Parse(spec)
+}
+
 // parseSchedules parses the schedule values and returns a list of schedules.
 // each schedule is parsed as a cron expression.
 func parseSchedules(values []string) ([]Schedule, error) {
 	var ret []Schedule
 
 	for _, v := range values {
-		parsed, err := cronParser.Parse(v)
+		parsed, err := parseCron(v)
 		if err != nil {
 			return nil, fmt.Errorf("%w: %s", errInvalidSchedule, err)
 		}
@@ -98,7 +110,7 @@ func parseScheduleMap(
 		}
 
 		for _, v := range values {
-			if _, err := cronParser.Parse(v); err != nil {
+			if _, err := parseCron(v); err != nil {
 				return fmt.Errorf("%w: %s", errInvalidSchedule, err)
 			}
 			*targets = append(*targets, v)
